@@ -572,9 +572,13 @@ static int c07_main(int argc,char **argv){
         if(rc==0){ int pend=H->lap_valid||H->stale||(H2->open&&H2->lap_valid); /* an old handle that already gave its lapping audio to an earlier ov_crosslap is ahead of its position */
           if(H2->open){ H2->lap_valid=0; H2->lap_oldunk=pend; }
           H->lap_valid=0; H->stale=1; } /* its lapping audio has been consumed without the position moving: see the C19 notes */
-        if(rc==0&&H2!=H&&vf->seekable&&H2->vf.seekable&&vf->ready_state>=STREAMSET&&H2->vf.ready_state>=STREAMSET&&h1==(ov_halfrate_p(&H2->vf)>0)){
-          int on=vorbis_info_blocksize(vf->vi+vf->current_link,0)>>(1+h1), nn=vorbis_info_blocksize(H2->vf.vi+H2->vf.current_link,0)>>(1+h1);
-          H2->lap_valid=1; H2->lap_oldpos=oldpos; H2->lap_oldlink=vf->current_link; H2->lap_newpos=ov_pcm_tell(&H2->vf); H2->lap_n=on<nn?on:nn; H2->lap_ch1=vf->vi[vf->current_link].channels; H2->lap_hs=h1; H2->lap_tail_ok=(H->played>=2*vorbis_info_blocksize(vf->vi+vf->current_link,1)); H2->lap_newlink=H2->vf.current_link; H2->lap_k=vorbis_synthesis_pcmout(&H2->vf.vd,NULL); }
+        if(rc==0&&H2!=H&&vf->seekable&&H2->vf.seekable&&vf->ready_state>=STREAMSET&&H2->vf.ready_state>=STREAMSET){
+          /* each handle's half short block in the samples that handle delivers; with the two handles at different decode rates the mix inside the
+             region is not predicted (lap_oldunk), only its extent: everything after it on the second handle is that handle's plain audio */
+          int h2=ov_halfrate_p(&H2->vf)>0;
+          int on=vorbis_info_blocksize(vf->vi+vf->current_link,0)>>(1+h1), nn=vorbis_info_blocksize(H2->vf.vi+H2->vf.current_link,0)>>(1+h2);
+          if(h1!=h2)H2->lap_oldunk=1;
+          H2->lap_valid=1; H2->lap_oldpos=oldpos; H2->lap_oldlink=vf->current_link; H2->lap_newpos=ov_pcm_tell(&H2->vf); H2->lap_n=on<nn?on:nn; H2->lap_ch1=vf->vi[vf->current_link].channels; H2->lap_hs=h2; H2->lap_tail_ok=(H->played>=2*vorbis_info_blocksize(vf->vi+vf->current_link,1)); H2->lap_newlink=H2->vf.current_link; H2->lap_k=vorbis_synthesis_pcmout(&H2->vf.vd,NULL); }
         printf("crosslap rc=%s\n",ovname(rc));
       }else if(!strcmp(op,"clear")){
         int rc=ov_clear(vf); H->open=0; printf("clear rc=%d closed=%d\n",rc,H->ms.closed);
